@@ -209,6 +209,13 @@ func (f *Frame) modelCallFull(key string, sig *types.Signature, vals []Val, args
 	case "fmt.Sprintf", "fmt.Sprint", "iface:error.Error", "strings.Join":
 		vc.used["A-LOG"] = true
 		return vc.freshVal("str", types.Typ[types.String]), true
+	case "hex.EncodeToString":
+		// two hexadecimal digits per byte; the digits themselves are not modelled
+		r := vc.freshVal("hex", types.Typ[types.String])
+		if len(vals) == 1 && vals[0].s == SBS {
+			vc.assume(eq(sx("strlen", r.t), sx("*", "2", sx("strlen", sx("bs_c", vals[0].t)))))
+		}
+		return r, true
 	case "runtime.NumGoroutine":
 		return vc.freshVal("n", types.Typ[types.Int]), true
 	case "time.Now":
